@@ -51,7 +51,11 @@ func VPH_human() {
 	}
 	// (1) |d*M - n*10^N| <= M/2   (half a unit of the last displayed digit)
 	err2 := vp_ZMul(vp_ZU(2), vp_ZAbs(vp_ZSub(vp_ZMul(d, zM), vp_ZMul(zn, vp_ZPow10(N)))))
-	vp_KnownRegion("KF-f", n >= 1<<53)
+	// KF-f: for n >= 2^53 float64(n) and the quotient are each rounded before %.Nf
+	// rounds a third time; the excess over half a unit is bounded by the two
+	// relative errors of 2^-53: at most 18447 * 2^-51 < 2^-32 units. Only a
+	// failure of that magnitude is the known finding; a larger error is not.
+	vp_KnownRegion("KF-f", vp_And(n >= 1<<53, vp_ZLe(err2, vp_ZAdd(zM, vp_ZU(M>>32)))))
 	vp_Assert(vp_ZLe(err2, zM), "numeral x multiplier within half a unit of the last digit")
 	vp_KnownRegionEnd("KF-f")
 	// (4) at least three significant digits; (6) the numeral stays inside its class,
